@@ -659,7 +659,10 @@ pub fn tier(name: &str) -> Tier {
 fn run_case(case: &Case, scratch: &Path, tally: &mut Tally, seen: &mut std::collections::BTreeSet<(String, String)>) {
     tally.evaluations += 1;
     let fault = kind_of_fault(&case.ops);
-    tally.bump(&format!("fault_{}", fault.replace('+', "_and_").replace('-', "_")), 1);
+    // one count per fault kind actually applied in this read's history
+    for kind in fault.split('+') {
+        tally.bump(&format!("fault_{}", kind.replace('-', "_")), 1);
+    }
     let fails = judge_in(case, scratch);
     for f in fails {
         if !seen.insert((f.clause.clone(), f.signature.clone())) {
